@@ -7,3 +7,18 @@ package utils
 //@   assumed
 //@   modifies e.Dtype, e.CVal
 //@ end
+
+// Value accessors used by the sort comparator (C05): read-only; their results
+// are functions of the value (ASSUMED; the number/string conversion itself is
+// outside the verified slice).
+//@ func (*CValueEnclosure).GetFloatValueIfPossible
+//@   assumed
+//@   pure
+//@   ensures result0 == uf("floatOf", float64, e) && result1 == uf("hasFloat", bool, e)
+//@ end
+
+//@ func (*CValueEnclosure).GetValueAsString
+//@   assumed
+//@   pure
+//@   ensures result0 == uf("strOf", string, e) && (result1 == nil) == uf("hasStr", bool, e)
+//@ end
